@@ -275,7 +275,11 @@ where
             if let Some(pos) = self.incomplete_pos.take() {
                 // resume incomplete search after previous read_record_set(), or
                 // after a seek() call.
-                if !try_opt!(self.resume_incomplete_search(pos, is_new)) {
+                let res = self.resume_incomplete_search(pos, is_new);
+                if self.postpone_error(&res, rset) {
+                    break;
+                }
+                if !try_opt!(res) {
                     // End of input: records that were already found
                     // still have to be returned
                     if rset.buf_positions.is_empty() {
@@ -286,7 +290,11 @@ where
             } else {
                 // search the next complete record after `next()`, or in
                 // later iterations of this loop
-                if !try_opt!(self.search()) {
+                let res = self.search();
+                if self.postpone_error(&res, rset) {
+                    break;
+                }
+                if !try_opt!(res) {
                     // At least one record must be present. If not, continue
                     // with `resume_incomplete_search()` in next iteration
                     if rset.buf_positions.is_empty() {
@@ -316,6 +324,24 @@ where
         rset.buffer.clear();
         rset.buffer.extend(self.get_buf());
         Some(Ok(()))
+    }
+
+    // If an invalid record is encountered while the record set already contains
+    // valid records, these have to be returned first. The reader is positioned at
+    // the invalid record, the error will thus be found again by the next call.
+    // Returns true if the error was postponed.
+    fn postpone_error(&mut self, res: &Result<bool, Error>, rset: &RecordSet) -> bool {
+        match res {
+            Ok(_) | Err(Error::Io(_)) | Err(Error::BufferLimit) => false,
+            Err(_) => {
+                if rset.buf_positions.is_empty() {
+                    return false;
+                }
+                self.state = State::Positioned;
+                self.incomplete_pos = None;
+                true
+            }
+        }
     }
 
     #[inline(never)]
